@@ -21,7 +21,7 @@ Ev == Log[l]
 
 TInit == /\ l = 1 /\ live = FALSE
          /\ sc = [id |-> 0, ty |-> "", val |-> 0, plan |-> <<>>] /\ pc = 1
-         /\ obj = [i \in Slots |-> NoObj] /\ wire = [x \in Syntaxes |-> NoWire]
+         /\ obj = [i \in Slots |-> NoObj] /\ wire = [x \in Syntaxes |-> NoWire] /\ dec = NoDec
 
 TSession == /\ l <= Len(Log) /\ Ev.a = "Session"
             /\ l' = l + 1
@@ -37,7 +37,8 @@ TSession == /\ l <= Len(Log) /\ Ev.a = "Session"
 Waived == IF "waive" \in DOMAIN Ev THEN SeqRange(Ev.waive) ELSE {}
 Stopped == "kf" \in DOMAIN Ev
 NoInput == Ev.a = "Decode" /\ Ev.rc = "NOINPUT"
-Obs == IF "bytes" \in DOMAIN Ev THEN Ev.bytes ELSE OpaqueWire
+Obs == [bytes |-> IF "bytes" \in DOMAIN Ev THEN Ev.bytes ELSE OpaqueWire,
+        consumed |-> IF "consumed" \in DOMAIN Ev THEN Ev.consumed ELSE 0]
 InOrder == Ev.id = sc.id /\ pc <= Len(sc.plan) /\ Ev.i = pc /\ Ev.a = sc.plan[pc].a
 Pending == IF ~InOrder THEN (IF Ev.a = "Crash" THEN {"crash"} ELSE {"out-of-order"})
            ELSE Faults(sc.plan[pc], Ev) \ Waived
